@@ -130,10 +130,12 @@ func runC19Cluster(rf *runFlags, sum *Summary, cf *CasesFile) error {
 					gv = append(gv, u.toGo())
 				}
 				buf, _ := json.Marshal(map[string]any{"shard_view": gv})
-				cl.VerifMergeRemoteState(buf)
+				// memberlist sets the join flag on both ends of the exchange a joining node starts: the merge rule is the same
+				join := r.Intn(3) == 0
+				cl.VerifMergeRemoteStateJoin(buf, join)
 				call = us
-				d = fmt.Sprintf("peer view: %v", us)
-				hk.Inc("MergeRemoteState")
+				d = fmt.Sprintf("peer view (join=%v): %v", join, us)
+				hk.Inc(fmt.Sprintf("MergeRemoteState join=%v", join))
 			default: // a peer pulls our state
 				call = localList()
 				var st struct {
